@@ -53,6 +53,16 @@ def crowded_case(rng):
     sup[bins[1]] = rng.randint(2, max(2, S - 1))
     if rng.random() < 0.5:
         sup[bins[2]] = rng.randint(2, max(2, S - 1))
+    if rng.random() < 0.25:
+        # a long bin (well past 12 entries, many ties on distance and ambiguity count) reported in full or nearly so
+        sup[bins[0]] = rng.randint(14, 26)
+        for k in ("sizetotal", "sizeup", "sizedown", "sizeside", "sizesame"):
+            o[k] = 0
+        if rng.random() < 0.5:
+            o["sizetotal"] = rng.randint(20, 40)
+        else:
+            for k in ("sizeup", "sizedown", "sizeside", "sizesame"):
+                o[k] = rng.choice([-1, 12, 20])
     ref, qs, ts = make_inputs_crowded(rng, sup)
     return ref, qs, ts, o
 
